@@ -3,7 +3,8 @@ From Coq Require Import List NArith ZArith.
 Import ListNotations.
 From Stam Require Import Model.Offset Model.Json Model.TempId Model.StamJson Spec.StamJsonSpec Proofs.StamJson Proofs.StamJsonSave
      Proofs.StamJsonLoad Proofs.StamJsonAnn Proofs.StamJsonWhole Proofs.StamJsonSub
-     Model.Store Model.StamJsonView Proofs.StoreSets Proofs.CsvReach Proofs.StamJsonReach.
+     Model.Store Model.StamJsonView Proofs.StoreSets Proofs.CsvReach Proofs.StamJsonReach
+     Proofs.StamJsonSubLoad Proofs.StamJsonMask Proofs.StamJsonSubWhole.
 
 (* THE PROPERTY.  For every well-formed store (Spec/StamJsonSpec.v wf_dstore: no dangling references,
    annotations refer to earlier annotations, ranges inside their text and their parent's range,
@@ -182,3 +183,28 @@ Theorem C05_reachable_roundtrip_standoff : forall ops rm sm,
   Forall op_ok ops -> Forall kind_ok ops -> sizes_fit (run ops) ->
   str_nodup (file_names (view (run ops) rm sm)) = true -> roundtrip_ok (view (run ops) rm sm).
 Proof. exact reachable_roundtrip_standoff. Qed.
+
+(* ONE LEVEL OF SUB-STORES.  For a well-formed store whose items are assigned to sub-stores in the
+   natural arrangement (the items of sub-store k before those of sub-store k+1 before the root's; no
+   document refers to an item of a later document) and whose file names are distinct: the root
+   document and the sub-store documents can be written, the loader (which merges the included
+   documents first, one after the other, each with its pre_length) accepts them, and the loaded
+   store shows the same canonical observation.  (Stores outside the arrangement are the known
+   class Known_C05_substore_order.)  Proof: loading the documents one after the other equals
+   loading their concatenation (C05_documents_one_by_one), whose every prefix is the document of
+   the store restricted to the first documents, which is well-formed. *)
+Theorem C05_substores_roundtrip : forall s ow,
+  owners_lt ow (ow_res ow) -> owners_lt ow (ow_set ow) -> owners_lt ow (ow_ann ow) ->
+  wf_dstore s = true -> arranged s ow = true ->
+  NoDup (map snd (ow_subs ow) ++ file_names s) ->
+  exists d s' ow', encode_o s ow = Some d /\ decode_o d = Some (s', ow') /\ same_model s s'.
+Proof. exact sub_roundtrip. Qed.
+
+Theorem C05_documents_one_by_one : forall fs id ds,
+  (forall k, k <= length ds -> exists r, mload fs id (firstn k ds) = Some r) ->
+  load_docs fs ds (mkdstore id [] [] []) = mload fs id ds.
+Proof. exact docs_one_by_one. Qed.
+
+Theorem C05_restriction_wellformed : forall s ow k,
+  wf_dstore s = true -> closed s ow = true -> wf_dstore (mask s ow k) = true.
+Proof. exact mask_wf. Qed.
